@@ -116,8 +116,27 @@ class Termizer:
             args = tuple(self.term(a) for a in call_args(n))
             return self.mk_call(cn, args, n)
         if k == "Block":
-            if not n["stmts"] and "expr" in n:
+            if "expr" in n and all(_debug_stmt(F, st) for st in n["stmts"]):
                 return self.term(n["expr"])
+            return self.fresh(n)
+        if k == "Match" and n.get("src") == "Normal":
+            st = self.term(n["e"])
+            if st[0] == "int":
+                for a in n["arms"]:
+                    p = a["pat"]
+                    if "guard" in a:
+                        break
+                    if p.get("k") == "PLit" and p.get("lk") == "int" and int(p["v"]) == st[1]:
+                        return self.term(a["body"])
+                    if p.get("k") == "PRange" and p.get("lo", {}).get("lk") == "int" and p.get("hi", {}).get("lk") == "int":
+                        hi = int(p["hi"]["v"]) + (1 if p.get("incl") else 0)
+                        if int(p["lo"]["v"]) <= st[1] < hi:
+                            return self.term(a["body"])
+                        continue
+                    if p.get("k") in ("PWild", "PBind"):
+                        return self.term(a["body"])
+                    if p.get("k") != "PLit":
+                        break
             return self.fresh(n)
         if k == "If" and "el" in n and n["c"].get("k") != "Let":
             a = self.term(n["th"])
@@ -156,6 +175,12 @@ class Termizer:
             if t is not None:
                 return t
         return ("call", cn, args)
+
+
+def _debug_stmt(F, st):
+    if st.get("k") == "If" and st["c"].get("k") == "Lit" and "cfg" in F.mac(st["c"]):
+        return True
+    return is_debug_only(F, st)
 
 
 COMMUTATIVE = {"+", "*", "&", "|", "^", "min", "max", "==", "!=", "&&", "||"}
@@ -814,6 +839,9 @@ class Walker:
         elif k == "PTuple" and term is not None and term[0] == "tup" and len(term) - 1 == len(p["ps"]):
             for q, t in zip(p["ps"], term[1:]):
                 self.bind_pat(q, t, K)
+        elif k == "PTuple" and term is not None and term[0] == "ite" and _ite_tuple_arity(term) == len(p["ps"]):
+            for i, q in enumerate(p["ps"]):
+                self.bind_pat(q, _ite_project(term, i), K)
         elif k == "PRef":
             self.bind_pat(p["p"], term, K)
         else:
@@ -1214,6 +1242,22 @@ class Walker:
                 pre = names[names.index("enumerate") + 1:]
                 if base is not None and all(x in ("iter", "iter_mut", "copied", "cloned", "as_ref", "into_iter", "as_mut") for x in pre):
                     K.add(cmp_atoms("<", v, ("call", "len", (T.term(base),))))
+
+
+def _ite_tuple_arity(t):
+    if t[0] == "tup":
+        return len(t) - 1
+    if t[0] == "ite":
+        a = _ite_tuple_arity(t[2])
+        b = _ite_tuple_arity(t[3])
+        return a if a == b else None
+    return None
+
+
+def _ite_project(t, i):
+    if t[0] == "tup":
+        return t[1 + i]
+    return ("ite", t[1], _ite_project(t[2], i), _ite_project(t[3], i))
 
 
 def range_of(F, n):
